@@ -1,12 +1,14 @@
 (* CGenEquivMicro.v -- C04: one call of the emitted uscxml_step() that takes transitions (CGen.cfire: REMEMBER_HISTORY ..
    ENTER_STATES, return USCXML_ERR_OK) against one Fast.fselect_and_step of FastMicroStep on corresponding states;
    the first call (initial configuration) and the call after a top-level final state was entered (the remaining
-   <onexit> handlers, USCXML_ERR_DONE) against the corresponding branches of FastMicroStep::step.  For every chart of
-   the history-free core whose content is in the transpiler's fragment (chart_c), every legal configuration, every
-   event, every queue contents.  The side conditions entry_agree / remember_agree of the partial theorems are
-   discharged here from the legality of the configuration.  Proofs only. *)
+   <onexit> handlers, USCXML_ERR_DONE) against the corresponding branches of FastMicroStep::step.
+   Section Micro is generic: it takes the agreement of the history and entry-set passes on legal states as hypotheses.
+   Section Core discharges them for every chart of the history-free core and every variant of the template from the
+   legality of the configuration (CGenEquivEntry.v); CGenEquivHistRun.v does it for charts with pseudo-states.
+   The side conditions entry_agree / remember_agree of the partial theorems are gone.  Proofs only. *)
 From V Require Import Base NameMatch Chart Exec Large LargeLemmas Fast Legal SetLemmas LegalAbstract LegalLarge LegalRun WfCore
-                      CGen CGenLemmas SerializeCodecLemmas SerializeFastLemmas LegalHistFastRun
+                      CGen CGenLemmas SerializeCodecLemmas SerializeFastLemmas
+                      LegalHistBase LegalHistEntry LegalHistStep LegalHistRun LegalHistWf LegalHistFastRun LegalHistCore
                       PmlEquivBase PmlEquivCore PmlEquivEntry
                       CGenEquivContent CGenEquivEntry CGenEquivStep.
 Local Open Scope nat_scope.
@@ -16,26 +18,124 @@ Variable cv : cg_variant.
 Variable xv : ex_variant.
 Variable c : fchart.
 Hypothesis Htlf : cg_tlf_first_byte cv = false.
-Hypothesis H : wf_coreb c = true.
-Hypothesis Hroot : fs_type (st c 0) = FCompound.
+Hypothesis Hanc_sorted : forall i, ssorted (fs_ancestors (st c i)).
+Hypothesis Hanc_bounded : forall i, bounded (nstates c) (fs_ancestors (st c i)).
 Hypothesis Hc : chart_c c = true.
-Let W : WF c := wf_coreb_sound c H.
-Notation n := (nstates c).
-Notation Anc := (LegalAbstract.Anc (fun i => fs_parent (st c i))).
+(* the two passes that differ between the template and the engine agree on legal states *)
+Hypothesis Hrem : forall cfg exitset hist, cremember cv c cfg exitset hist = fremember c cfg exitset hist.
+(* [OK]: what is known of the engine's state (a legal configuration; with histories: and legal recorded values) *)
+Variable OK : lstate -> Prop.
+Hypothesis Hentry : forall l evn, OK l ->
+  let sel := cselect_all c (l_cfg l) evn in
+  let ex := cexitset c (l_cfg l) sel in
+  centry_set cv c (l_cfg l) ex (fremember c (l_cfg l) ex (l_hist l)) (ctargets c sel) sel =
+  fentry_set c (l_cfg l) ex (fremember c (l_cfg l) ex (l_hist l)) (ctargets c sel) sel.
+Hypothesis Hentry0 : forall hist, HistOK c hist ->
+  centry_set cv c [] [] hist (fs_completion (st c 0)) [] = fentry_set c [] [] hist (fs_completion (st c 0)) [].
 
 (* ---- SELECT_TRANSITIONS ---- *)
 Lemma selection cfg ev y :
   fselect c cfg ev (seq 0 (ntrans c)) [] y = (cselect_all c cfg (option_map ev_name ev), y).
 Proof. unfold cselect_all. apply cselect_equiv. now apply chart_c_conds. Qed.
 
-Lemma selection_ok cfg evn ti : In ti (cselect_all c cfg evn) -> In (ft_source (tr c ti)) cfg.
+Lemma selection_facts cfg evn :
+  pairwise_ok lg_fixed c (cselect_all c cfg evn) /\ forall ti, In ti (cselect_all c cfg evn) -> In (ft_source (tr c ti)) cfg.
 Proof.
   pose (ev := option_map (fun e => {| ev_name := e; ev_kind := EvInternal |}) evn).
   assert (E : option_map ev_name ev = evn) by (destruct evn; reflexivity).
-  destruct (fselect_ok c cfg ev (seq 0 (ntrans c)) [] {| x_store := []; x_iq := []; x_eq := []; x_out := [] |}
-              (nil_pairwise lg_fixed c) (fun ti (Hn : In ti []) => match Hn with end)) as [_ Hs].
-  intros Hti. apply Hs. rewrite selection, E. exact Hti.
+  pose proof (fselect_ok c cfg ev (seq 0 (ntrans c)) [] {| x_store := []; x_iq := []; x_eq := []; x_out := [] |}
+              (nil_pairwise lg_fixed c) (fun ti (Hn : In ti []) => match Hn with end)) as F.
+  rewrite selection, E in F. exact F.
 Qed.
+
+Lemma selection_ok cfg evn ti : In ti (cselect_all c cfg evn) -> In (ft_source (tr c ti)) cfg.
+Proof. apply selection_facts. Qed.
+
+(* ---- a call of uscxml_step() that takes transitions ---- *)
+Theorem cfire_sim lc lf x y ev :
+  lsame lc lf -> csim x y -> OK lf ->
+  cselect_all c (l_cfg lc) (option_map ev_name ev) <> [] ->
+  let r1 := cfire cv c lc x (cselect_all c (l_cfg lc) (option_map ev_name ev)) in
+  let r2 := fselect_and_step xv c lf y ev in
+  lsame (fst (fst r1)) (fst (fst r2)) /\ csim (snd (fst r1)) (snd (fst r2)) /\
+  snd r1 = C_ERR_OK /\ snd r2 = RC_MICROSTEPPED /\
+  l_spont (fst (fst r1)) = true /\ l_spont (fst (fst r2)) = true /\
+  l_init (fst (fst r1)) = true /\ l_cancelled (fst (fst r1)) = l_cancelled lc /\
+  l_init (fst (fst r2)) = true /\ l_cancelled (fst (fst r2)) = l_cancelled lf.
+Proof.
+  intros L R Hok Hne. cbv zeta. pose proof L as (L1 & L2 & L3 & L4).
+  pose proof (Hentry lf (option_map ev_name ev) Hok) as He. cbv zeta in He. rewrite <- L1, <- L2 in He.
+  unfold fselect_and_step. cbn [upd_flags l_cfg]. rewrite <- L1, selection.
+  remember (cselect_all c (l_cfg lc) (option_map ev_name ev)) as sel eqn:Es.
+  destruct sel as [|t0 r0]; [congruence|].
+  set (sel := t0 :: r0) in *.
+  assert (L0 : lsame lc (upd_flags lf (l_spont lf) false)) by (unfold lsame; cbn [upd_flags l_cfg l_hist l_tlf l_fin]; auto).
+  pose proof (microstep_sim cv xv c Htlf Hanc_sorted Hanc_bounded Hc lc (upd_flags lf (l_spont lf) false) x (emit TMsB y)
+                (ctargets c sel) (cexitset c (l_cfg lc) sel) sel false L0
+                (csim_emit TMsB x y eq_refl R)
+                (fun _ => Hrem (l_cfg lc) (cexitset c (l_cfg lc) sel) (l_hist lc)) He) as M.
+  cbv zeta in M. unfold cfire.
+  pose proof (fmicrostep_flags xv c (upd_flags lf (l_spont lf) false) (emit TMsB y) (ctargets c sel) (cexitset c (l_cfg lc) sel) sel false) as F.
+  cbv zeta in F. unfold ctargets, cexitset in *.
+  destruct (cmicrostep cv c lc x _ _ sel false) as [l1 x1].
+  destruct (fmicrostep xv c (upd_flags lf (l_spont lf) false) (emit TMsB y) _ _ sel false) as [l2 y2].
+  cbn [fst snd] in *. destruct M as (M1 & M2 & M3 & M4 & M5 & M6). destruct F as (F1 & F2 & _ & _ & F5).
+  split; [exact M1|]. split; [exact M2|]. repeat split; auto.
+Qed.
+
+(* ---- the first call: the initial configuration ---- *)
+Theorem cinitial_sim lc lf x y :
+  lsame lc lf -> csim x y -> l_cfg lc = [] -> HistOK c (l_hist lc) ->
+  let r1 := cmicrostep cv c lc x (fs_completion (st c 0)) [] [] true in
+  let r2 := fmicrostep xv c lf (emit TMsB y) (fs_completion (st c 0)) [] [] true in
+  lsame (fst r1) (fst r2) /\ csim (snd r1) (snd r2) /\
+  l_spont (fst r1) = true /\ l_spont (fst r2) = true /\ l_init (fst r1) = true /\ l_cancelled (fst r1) = l_cancelled lc /\
+  l_init (fst r2) = true /\ l_cancelled (fst r2) = l_cancelled lf.
+Proof.
+  intros L R Hnil HH. cbv zeta.
+  pose proof (microstep_sim cv xv c Htlf Hanc_sorted Hanc_bounded Hc lc lf x (emit TMsB y) (fs_completion (st c 0)) [] [] true L
+                (csim_emit TMsB x y eq_refl R) (fun F => False_ind _ (Bool.diff_true_false F))) as M.
+  rewrite Hnil in M. specialize (M (Hentry0 _ HH)). cbv zeta in M.
+  pose proof (fmicrostep_flags xv c lf (emit TMsB y) (fs_completion (st c 0)) [] [] true) as F. cbv zeta in F.
+  destruct (cmicrostep cv c lc x _ [] [] true) as [l1 x1].
+  destruct (fmicrostep xv c lf (emit TMsB y) _ [] [] true) as [l2 y2].
+  cbn [fst snd] in *. destruct M as (M1 & M2 & M3 & M4 & M5 & M6). destruct F as (F1 & F2 & _ & _ & F5).
+  split; [exact M1|]. split; [exact M2|]. repeat split; auto.
+Qed.
+
+(* ---- the call after a top-level final state: the <onexit> handlers of the whole configuration ---- *)
+Lemma final_exit_sim cfg l : forall x y, csim x y ->
+  csim (fold_left (fun x i => cexec_blocks (inst_of c cfg) (fs_onexit (st c i)) x) l x)
+       (fold_left (fun x i => exec_blocks xv (inst_of c cfg) (fs_onexit (st c i)) x) l y).
+Proof.
+  induction l as [|i r IH]; intros x y R; cbn [fold_left]; [exact R|]. apply IH.
+  apply sim_blocks; [apply (st_c c i Hc)|exact R].
+Qed.
+
+Theorem cterminate_sim lc lf x y :
+  lsame lc lf -> csim x y -> l_fin lc = false -> l_tlf lc = true ->
+  let r1 := cgen_step cv c lc x in
+  let r2 := fast_step xv c lf y in
+  lsame (fst (fst r1)) (fst (fst r2)) /\ csim (snd (fst r1)) (snd (fst r2)) /\
+  snd r1 = C_ERR_DONE /\ snd r2 = RC_FINISHED /\ l_fin (fst (fst r1)) = true.
+Proof.
+  intros (L1 & L2 & L3 & L4) R Hf Ht. cbv zeta. unfold cgen_step, fast_step. rewrite <- L4, <- L3, Hf, Ht, <- L1.
+  cbn [fst snd]. split; [unfold lsame; cbn [l_cfg l_hist l_tlf l_fin]; auto|].
+  split; [|auto]. apply csim_emit; [reflexivity|]. apply final_exit_sim. now apply csim_emit.
+Qed.
+
+End Micro.
+
+(* ------------------------------------------------------------------ the history-free core *)
+Section Core.
+Variable cv : cg_variant.
+Variable c : fchart.
+Hypothesis H : wf_coreb c = true.
+Hypothesis Hroot : fs_type (st c 0) = FCompound.
+Let W : WF c := wf_coreb_sound c H.
+Let WH : WFH c := wf_histb_sound c (wf_initb_histb c (wf_coreb_initb c H)).
+Notation n := (nstates c).
+Notation Anc := (LegalAbstract.Anc (fun i => fs_parent (st c i))).
 
 (* ---- the sets of a microstep after a selection ---- *)
 Section Sets.
@@ -100,79 +200,44 @@ Proof.
   - intros x [].
 Qed.
 
-(* ---- a call of uscxml_step() that takes transitions ---- *)
-Theorem cfire_sim lc lf x y ev :
-  lsame lc lf -> csim x y -> LegalCfg c (l_cfg lf) ->
-  cselect_all c (l_cfg lc) (option_map ev_name ev) <> [] ->
-  let r1 := cfire cv c lc x (cselect_all c (l_cfg lc) (option_map ev_name ev)) in
-  let r2 := fselect_and_step xv c lf y ev in
-  lsame (fst (fst r1)) (fst (fst r2)) /\ csim (snd (fst r1)) (snd (fst r2)) /\
-  snd r1 = C_ERR_OK /\ snd r2 = RC_MICROSTEPPED /\
-  l_spont (fst (fst r1)) = true /\ l_spont (fst (fst r2)) = true /\
-  l_init (fst (fst r1)) = true /\ l_cancelled (fst (fst r1)) = l_cancelled lc /\
-  l_init (fst (fst r2)) = true /\ l_cancelled (fst (fst r2)) = l_cancelled lf.
+(* the hypotheses of Section Micro *)
+Lemma core_anc_sorted i : ssorted (fs_ancestors (st c i)).
+Proof. apply (anc_sorted c H). Qed.
+Lemma core_anc_bounded i : bounded n (fs_ancestors (st c i)).
+Proof. apply (anc_bounded c H). Qed.
+Lemma core_rem cfg exitset hist : cremember cv c cfg exitset hist = fremember c cfg exitset hist.
+Proof. now apply cremember_core. Qed.
+
+Lemma cselect_src cfg ev ts : forall sel,
+  (forall ti, In ti sel -> In (ft_source (tr c ti)) cfg) ->
+  forall ti, In ti (cselect c cfg ev ts sel) -> In (ft_source (tr c ti)) cfg.
 Proof.
-  intros L R Hleg Hne. cbv zeta. pose proof L as (L1 & L2 & L3 & L4). rewrite <- L1 in Hleg.
-  assert (Hsrc : forall ti, In ti (cselect_all c (l_cfg lc) (option_map ev_name ev)) -> In (ft_source (tr c ti)) (l_cfg lc))
-    by (intros ti; apply selection_ok).
-  unfold fselect_and_step. cbn [upd_flags l_cfg]. rewrite <- L1, selection.
-  remember (cselect_all c (l_cfg lc) (option_map ev_name ev)) as sel eqn:Es.
-  destruct sel as [|t0 r0]; [congruence|].
-  set (sel := t0 :: r0) in *.
-  assert (L0 : lsame lc (upd_flags lf (l_spont lf) false)) by (unfold lsame; cbn [upd_flags l_cfg l_hist l_tlf l_fin]; auto).
-  pose proof (microstep_sim cv xv c Htlf H Hc lc (upd_flags lf (l_spont lf) false) x (emit TMsB y)
-                (ctargets c sel) (cexitset c (l_cfg lc) sel) sel false L0
-                (csim_emit TMsB x y eq_refl R)
-                (fun _ => cremember_core cv c H (l_cfg lc) (cexitset c (l_cfg lc) sel) (l_hist lc))
-                (entry_set_sel (l_cfg lc) sel Hleg Hsrc _ sel)) as M.
-  cbv zeta in M. unfold cfire.
-  pose proof (fmicrostep_flags xv c (upd_flags lf (l_spont lf) false) (emit TMsB y) (ctargets c sel) (cexitset c (l_cfg lc) sel) sel false) as F.
-  cbv zeta in F. unfold ctargets, cexitset in *.
-  destruct (cmicrostep cv c lc x _ _ sel false) as [l1 x1].
-  destruct (fmicrostep xv c (upd_flags lf (l_spont lf) false) (emit TMsB y) _ _ sel false) as [l2 y2].
-  cbn [fst snd] in *. destruct M as (M1 & M2 & M3 & M4 & M5 & M6). destruct F as (F1 & F2 & _ & _ & F5).
-  split; [exact M1|]. split; [exact M2|]. repeat split; auto.
+  induction ts as [|t r IH]; intros sel Hs; cbn [cselect]; [exact Hs|].
+  destruct (ft_history (tr c t) || ft_initial (tr c t)); [now apply IH|].
+  destruct (mem (ft_source (tr c t)) cfg) eqn:M; cbn [negb]; [|now apply IH].
+  assert (Hs' : forall ti, In ti (sel ++ [t]) -> In (ft_source (tr c ti)) cfg).
+  { intros ti Hi. apply in_app_or in Hi as [Hi|[<-|[]]]; [now apply Hs|]. now apply SetLemmas.mem_In. }
+  destruct (existsb _ sel); [now apply IH|].
+  destruct (match ev with Some _ => ft_spontaneous (tr c t) | None => negb (ft_spontaneous (tr c t)) end); [now apply IH|].
+  destruct (match ev with Some e => negb (name_match_impl nm_fixed (ft_event (tr c t)) e) | None => false end); [now apply IH|].
+  destruct (ft_cond (tr c t)) as [cnd|]; [destruct (c_is_true _ cnd)|]; now apply IH.
 Qed.
 
-(* ---- the first call: the initial configuration ---- *)
-Theorem cinitial_sim lc lf x y :
-  lsame lc lf -> csim x y -> l_cfg lc = [] ->
-  let r1 := cmicrostep cv c lc x (fs_completion (st c 0)) [] [] true in
-  let r2 := fmicrostep xv c lf (emit TMsB y) (fs_completion (st c 0)) [] [] true in
-  lsame (fst r1) (fst r2) /\ csim (snd r1) (snd r2) /\
-  l_spont (fst r1) = true /\ l_spont (fst r2) = true /\ l_init (fst r1) = true /\ l_cancelled (fst r1) = l_cancelled lc /\
-  l_init (fst r2) = true /\ l_cancelled (fst r2) = l_cancelled lf.
+Lemma core_entry l evn : LegalCfg c (l_cfg l) ->
+  let sel := cselect_all c (l_cfg l) evn in
+  let ex := cexitset c (l_cfg l) sel in
+  centry_set cv c (l_cfg l) ex (fremember c (l_cfg l) ex (l_hist l)) (ctargets c sel) sel =
+  fentry_set c (l_cfg l) ex (fremember c (l_cfg l) ex (l_hist l)) (ctargets c sel) sel.
 Proof.
-  intros L R Hnil. cbv zeta.
-  pose proof (microstep_sim cv xv c Htlf H Hc lc lf x (emit TMsB y) (fs_completion (st c 0)) [] [] true L
-                (csim_emit TMsB x y eq_refl R) (fun F => False_ind _ (Bool.diff_true_false F))) as M.
-  rewrite Hnil in M. specialize (M (entry_set_init _ _)). cbv zeta in M.
-  pose proof (fmicrostep_flags xv c lf (emit TMsB y) (fs_completion (st c 0)) [] [] true) as F. cbv zeta in F.
-  destruct (cmicrostep cv c lc x _ [] [] true) as [l1 x1].
-  destruct (fmicrostep xv c lf (emit TMsB y) _ [] [] true) as [l2 y2].
-  cbn [fst snd] in *. destruct M as (M1 & M2 & M3 & M4 & M5 & M6). destruct F as (F1 & F2 & _ & _ & F5).
-  split; [exact M1|]. split; [exact M2|]. repeat split; auto.
+  intros L. cbv zeta. apply entry_set_sel; [exact L|].
+  unfold cselect_all. apply cselect_src. intros ti [].
 Qed.
 
-(* ---- the call after a top-level final state: the <onexit> handlers of the whole configuration ---- *)
-Lemma final_exit_sim cfg l : forall x y, csim x y ->
-  csim (fold_left (fun x i => cexec_blocks (inst_of c cfg) (fs_onexit (st c i)) x) l x)
-       (fold_left (fun x i => exec_blocks xv (inst_of c cfg) (fs_onexit (st c i)) x) l y).
-Proof.
-  induction l as [|i r IH]; intros x y R; cbn [fold_left]; [exact R|]. apply IH.
-  apply sim_blocks; [apply (st_c c i Hc)|exact R].
-Qed.
+Lemma core_ok l : StOK c l -> LegalCfg c (l_cfg l).
+Proof. intros [L _]. now apply (LegalCfgH_LegalCfg c WH). Qed.
 
-Theorem cterminate_sim lc lf x y :
-  lsame lc lf -> csim x y -> l_fin lc = false -> l_tlf lc = true ->
-  let r1 := cgen_step cv c lc x in
-  let r2 := fast_step xv c lf y in
-  lsame (fst (fst r1)) (fst (fst r2)) /\ csim (snd (fst r1)) (snd (fst r2)) /\
-  snd r1 = C_ERR_DONE /\ snd r2 = RC_FINISHED /\ l_fin (fst (fst r1)) = true.
-Proof.
-  intros (L1 & L2 & L3 & L4) R Hf Ht. cbv zeta. unfold cgen_step, fast_step. rewrite <- L4, <- L3, Hf, Ht, <- L1.
-  cbn [fst snd]. split; [unfold lsame; cbn [l_cfg l_hist l_tlf l_fin]; auto|].
-  split; [|auto]. apply csim_emit; [reflexivity|]. apply final_exit_sim. now apply csim_emit.
-Qed.
+Lemma core_entry0 hist : HistOK c hist ->
+  centry_set cv c [] [] hist (fs_completion (st c 0)) [] = fentry_set c [] [] hist (fs_completion (st c 0)) [].
+Proof. intros _. apply entry_set_init. Qed.
 
-End Micro.
+End Core.
